@@ -1,6 +1,7 @@
 CONSTANTS
   Family = "rte"
   L = 3
+  GrowExtra = {}
   Grow <- MCGrow
   ProbeGrow <- MCProbeGrow
 INIT MCInit
